@@ -661,10 +661,15 @@ def run(ctx, cases_override=None):
     order = sorted(groups)
     batches = [[n for n in order if n <= 4], [n for n in order if 4 < n <= 6], [n for n in order if n > 6]]
     if sum(len(groups[n]) for n in order if n > 4) < 300: batches = [batches[0], batches[1] + batches[2]]
+    import time, os, sys
+    t0 = time.time()
+    def tick(what):
+        if os.environ.get("VERIF_DEBUG"): sys.stderr.write("C12 %-28s %6.1fs\n" % (what, time.time() - t0))
     for batch in batches:
         ths = [threading.Thread(target=work, args=(n,)) for n in batch]
         for t in ths: t.start()
         for t in ths: t.join()
+        tick("mpi batch %s" % batch)
     for np_ in order:
         ls = groups[np_]; impl = impls[np_]
         account(ctx, ls, impl, nontrivial=lambda op, p, o: bool(o) and not o.startswith(("CRASH", "EXC")) and "EXC" not in o)
@@ -681,9 +686,11 @@ def run(ctx, cases_override=None):
                 fails.append(dict(kind="counterexample", case=l, impl=(o or "")[:3000], model=None, op=op, size=len(l), np=np_,
                                   oracle=dict(op="well-formed report", error=repr(e)[:300]),
                                   theorem="C12 well-formed report on every rank (%d ranks)" % np_))
+        tick("checks np=%d" % np_)
         # second stage: exact oracles evaluated by the extracted Coq specification functions
         what = {ol.split(" ", 1)[0]: w for w, ol in olines}
         f2 = oracle_run(ctx, [ol for _, ol in olines], "C12 oracle", lambda oid: oid)
+        tick("oracles np=%d (%d)" % (np_, len(olines)))
         for x in f2:
             oid = x["oracle"]["line"].split(" ", 1)[0]
             x["theorem"] = "C12 %s (%d ranks)" % (what.get(oid, "oracle"), np_)
@@ -699,6 +706,7 @@ def run(ctx, cases_override=None):
         ml = ctx.pop("c12_model", [])
         if ml:
             res = ctx["run_driver"](ctx["model"], [m[1] for m in ml])
+            tick("model np=%d (%d)" % (np_, len(ml)))
             for cid, mline, want, l, o in ml:
                 ctx["stats"]["oracle_checks"] += 1
                 got = res.get(cid + ".m")
